@@ -6,7 +6,7 @@ import Driver.Common
 ops (written by `harness/hcore/src/bin/admission.rs` after executing them on the real code):
   `case <progs>`               → `ok at=<p0>,<p1>,…`           (threads `;`, ops `,`, `s`/`sf`/`s[…]`/`d`/`b`)
   `step <tid> <point> [id=i]`  → `<c> <m> <n> st=<status> at=<next point|done>[ ret <kind> <id> <res>]`
-  `rx run|stop|kill`           → `handled=<ids|-> exit=<reason|-> st=<status>`
+  `rx run|stop|kill`           → `handled=<ids|-> exit=<reason|-> st=<status> self=<id:res,…|->`
   `end <progs> <signature>`    → `word=<c> <m> <n> st=<status> handled=<ids|-> sup=<events> alive=<0|1>`
 
 One `step` line = one `Admission.step g (.t tid)`. `rx run` = the receiver dequeues until it blocks
@@ -28,12 +28,15 @@ partial def parseOps (cs : List Char) : List Op × List Char :=
     let (bf, rest) := match rest with
       | 'f' :: r => (true, r)
       | r => (false, r)
+    let (rs, rest) := match rest with
+      | '!' :: r => (true, r)
+      | r => (false, r)
     let (nested, rest) := match rest with
       | '[' :: r =>
         let (n, r') := parseOps r
         (n, match r' with | ']' :: r'' => r'' | r'' => r'')
       | r => ([], r)
-    more (Op.send nested bf) rest
+    more (Op.send nested bf rs) rest
   | 'd' :: rest => more .drain rest
   | 'b' :: rest => more .bad rest
   | '-' :: rest => ([], rest)
@@ -43,6 +46,12 @@ where
     match rest with
     | ',' :: r => let (l, r') := parseOps r; (op :: l, r')
     | r => ([op], r)
+
+/-- number of `send`s (at any nesting depth) whose handling makes the actor send to itself -/
+partial def countResend : List Op → Nat
+  | [] => 0
+  | .send nested _ rs :: l => (if rs then 1 else 0) + countResend nested + countResend l
+  | _ :: l => countResend l
 
 def parseProgs (s : String) : List (List Op) :=
   (s.splitOn ";").map (fun t => (parseOps t.toList).1)
@@ -64,8 +73,21 @@ def threadAt (g : G) (i : Nat) : String :=
 
 def showWord (w : Word) : String := s!"{b01 w.closed} {b01 w.marker} {w.count}"
 
-/-- the receiver dequeues until it blocks (fuel = queue length + 1) -/
-def recvAll (g : G) : G := (List.replicate (g.sh.queue.length + 1) Tid.recv).foldl step g
+/-- The receiver dequeues until it blocks. When it handles a flagged message the handler sends
+one message to its own actor: handler thread `workers + nextH` runs one complete send. -/
+def recvAll (g : G) (workers : Nat) (flagged : List Nat) (nextH : Nat) : Nat → G × Nat
+  | 0 => (g, nextH)
+  | fuel + 1 =>
+    let g' := step g .recv
+    if g'.sh.handled.length == g.sh.handled.length then (g', nextH)
+    else
+      match g'.sh.handled.getLast? with
+      | some id =>
+        if flagged.contains id then
+          let g'' := (List.replicate 12 (Tid.t (workers + nextH))).foldl step g'
+          recvAll g'' workers flagged (nextH + 1) fuel
+        else recvAll g' workers flagged nextH fuel
+      | none => recvAll g' workers flagged nextH fuel
 
 def exitSeq : List Tid := [.setStatus stStopping, .rxClose, .rxFlush, .setStatus stStopped]
 
@@ -77,6 +99,8 @@ structure ImplRet where
   res : String
   /-- the observed `closed` bit just before the send's first step -/
   late : Bool
+  /-- ids of the sends that had returned Ok (in the implementation) before this send's first step -/
+  seenOk : List Nat := []
   /-- line of the send's first step and line of its return -/
   startLine : Nat
   retLine : Nat
@@ -84,7 +108,7 @@ structure ImplRet where
 
 structure Case where
   closed : Bool := false          -- last observed closed bit
-  starts : List (Nat × Bool × Nat) := []   -- id ↦ (late, line of the first step)
+  starts : List (Nat × Bool × Nat × List Nat) := []   -- id ↦ (late, line of the first step, ok ids so far)
   rets : List ImplRet := []
   handled : List Nat := []
   exits : List String := []       -- exit reasons seen by rx ops
@@ -98,6 +122,12 @@ structure St where
   g : G := {}
   c : Case := {}
   exitReason : String := "-"      -- model-side: reason of the receiver's exit
+  /-- number of worker threads; the threads after them run the handler's self-sends -/
+  workers : Nat := 0
+  /-- ids of the messages whose handling makes the actor send to itself -/
+  flagged : List Nat := []
+  /-- next unused handler thread -/
+  nextH : Nat := 0
   /-- model and implementation already disagreed in this case: the rest of the case is not
   compared any more (one DIFF per case), the oracle still judges the implementation -/
   diverged : Bool := false
@@ -114,43 +144,70 @@ def parseRets : List String → List (String × Nat × String)
   | _ :: rest => parseRets rest
   | [] => []
 
-def indexOf? (l : List Nat) (x : Nat) : Option Nat :=
-  let rec go : List Nat → Nat → Option Nat
-    | [], _ => none
-    | y :: ys, n => if x == y then some n else go ys (n + 1)
-  go l 0
+def parseKind? : String → Option RKind
+  | "send" => some .send | "drain" => some .drain | "bad" => some .bad | _ => none
+def parseRes? : String → Option Res
+  | "ok" => some .ok | "sendErr" => some .sendErr | "invalidType" => some .invalidType
+  | "drainErr" => some .drainErr | _ => none
 
-/-- Oracle at the end of a case (all workers finished, the receiver ran until it blocked),
-on the implementation's observations only. Returns the names of the violated clauses. -/
+/-- Oracle at the end of a case (all workers finished, the receiver ran until it blocked), on the
+implementation's observations only. The state clauses are `Admission.Obs.violations` — the function
+proved empty for the model in `Props/C07.lean` / `Props/C02.lean` (`oracle_holds_of_model`) —
+applied to the implementation's `Obs` (for the `order` clause each send carries the ids of the sends
+that had returned Ok before its first step, computed here from the executed schedule exactly as the
+model's ghost `seenOk`); the remaining clauses concern return values the model does not have
+(`wrong-return`, `bad-accepted`). -/
 def oracleEnd (c : Case) (word : Word) (handled : List Nat) (sup : List String) (alive : Bool) : List String :=
-  let sends := c.rets.filter (·.kind == "send")
-  let oks := sends.filter (·.res == "ok")
   let drained := (sup.filter (· == "Terminated:Drained")).length
-  -- C02 (a): handled at most once, only messages whose send returned Ok
-  (if nodupNat handled then [] else ["handled-twice"]) ++
-  (if handled.all (fun i => oks.any (·.id == i)) then [] else ["handled-without-ok"]) ++
-  (if c.rets.all (fun r => !(r.res.startsWith "sendErrWrong") && r.res != "channelClosed" && !(r.res.startsWith "other")) then []
-    else ["wrong-return"]) ++
-  -- C02 (a): exactly once unless the actor exited for another reason
-  (if c.otherExit || oks.all (fun r => handled.contains r.id) then [] else ["ok-not-handled"]) ++
-  -- C02 (b): real-time order ⇒ handling order
-  (if oks.all (fun r1 => oks.all (fun r2 =>
-      !(r1.retLine < r2.startLine) ||
-        (match indexOf? handled r1.id, indexOf? handled r2.id with
-         | some a, some b => a < b
-         | none, some _ => false        -- the later one handled, the earlier one not
-         | _, _ => true))) then [] else ["order"]) ++
+  let obs : Obs :=
+    { rets := c.rets.filterMap (fun r => do
+        let k ← parseKind? r.kind; let res ← parseRes? r.res
+        pure ⟨k, r.id, res, r.late, r.seenOk⟩),
+      handled := handled, word := word, drainedExits := drained, otherExit := c.otherExit, alive := alive }
+  obs.violations ++
+  (if c.rets.all (fun r => (parseKind? r.kind).isSome && (parseRes? r.res).isSome) then [] else ["wrong-return"]) ++
   -- C02 (d): a wrong-type send returns InvalidActorType
   (if (c.rets.filter (·.kind == "bad")).all (·.res == "invalidType") then [] else ["bad-accepted"]) ++
-  -- C07 (1): nothing admitted after the close
-  (if sends.all (fun r => !r.late || r.res == "sendErr") then [] else ["admitted-after-close"]) ++
-  -- C07 (2)/(5): at quiescence no ticket is outstanding and closed ⇒ marker
-  (if word.count == 0 then [] else ["count-not-zero"]) ++
-  (if !word.closed || word.marker then [] else ["closed-without-marker"]) ++
-  -- C07 (3)/(5): exactly one "Drained" exit after a drain unless stop/kill intervened; never two
+  (if c.drainClosed == word.closed then [] else ["closed-bit-differs"])
+
+/-! ### free-running stress cases (oracle only) -/
+
+structure SRec where
+  id : Nat
+  res : String
+  t0 : Nat
+  t1 : Nat
+
+def parseSRecs (v : String) : List SRec :=
+  if v == "-" then [] else
+  (v.splitOn ",").filterMap (fun (e : String) => match e.splitOn ":" with
+    | [i, r, a, b] => do
+      let i ← String.toNat? i; let a ← String.toNat? a; let b ← String.toNat? b
+      pure ⟨i, r, a, b⟩
+    | _ => none)
+
+/-- Oracle of a free-running case. Tickets come from one global counter, taken before a send
+starts and after it returned: `t1 a < t0 b` means send `a` had returned before send `b` started. -/
+def oracleStress (withDrain withStop : Bool) (rs : List SRec) (handled : List Nat)
+    (drain : Option (Nat × Nat)) (sup : List String) (exited : Bool) : List String :=
+  let oks := rs.filter (·.res == "ok")
+  let drained := (sup.filter (· == "Terminated:Drained")).length
+  (if nodupNat handled then [] else ["handled-twice"]) ++
+  (if handled.all (fun i => oks.any (·.id == i)) then [] else ["handled-without-ok"]) ++
+  (if rs.all (fun r => r.res == "ok" || r.res == "sendErr") then [] else ["wrong-return"]) ++
+  (if withStop || oks.all (fun r => handled.contains r.id) then [] else ["ok-not-handled"]) ++
+  (if oks.all (fun a => oks.all (fun b =>
+      !(a.t1 < b.t0) ||
+        (match indexOf? handled a.id, indexOf? handled b.id with
+         | some x, some y => x < y
+         | none, some _ => false
+         | _, _ => true))) then [] else ["order"]) ++
+  (match drain with
+   | some (_, d1) => if rs.all (fun r => !(d1 < r.t0) || r.res == "sendErr") then [] else ["admitted-after-close"]
+   | none => []) ++
   (if drained ≤ 1 then [] else ["drained-twice"]) ++
-  (if !c.drainClosed || c.otherExit || (drained == 1 && !alive) then [] else ["drain-never-finishes"]) ++
-  (if c.drainClosed || drained == 0 then [] else ["drained-without-drain"])
+  (if !withDrain || withStop || (drained == 1 && exited) then [] else ["drain-never-finishes"]) ++
+  (if withDrain || drained == 0 then [] else ["drained-without-drain"])
 
 /-! ### replay -/
 
@@ -159,9 +216,13 @@ def step1 (st : St) (op impl : String) : St × StepOut :=
   let st := { st with c := c }
   match words op with
   | ["case", progs] =>
-    let g := init (parseProgs progs)
-    let ats := ",".intercalate ((List.range g.threads.length).map (threadAt g))
-    ({ g := g, c := { line := 0 }, exitReason := "-", diverged := false }, { model := s!"ok at={ats}" })
+    let ps := parseProgs progs
+    -- one extra thread per flagged send: it performs the handler's send to its own actor
+    let h := (ps.map countResend).foldl (· + ·) 0
+    let g := init (ps ++ List.replicate h [Op.send [] false false])
+    let ats := ",".intercalate ((List.range ps.length).map (threadAt g))
+    ({ g := g, c := { line := 0 }, exitReason := "-", diverged := false, workers := ps.length },
+      { model := s!"ok at={ats}" })
   | "step" :: tid :: point :: opt =>
     match tid.toNat? with
     | none => (st, { model := "bad-op" })
@@ -171,6 +232,14 @@ def step1 (st : St) (op impl : String) : St × StepOut :=
         | some (f :: _) => some f.id
         | _ => none
       let g' := _root_.Admission.step st.g (.t i)
+      let flagged := match st.g.threads[i]? with
+        | some (f :: _) =>
+          (match f.pc, f.ops with
+           | .run, .send _ _ true :: _ => st.g.sh.nextId :: st.flagged
+           | .boxing, .send _ _ true :: _ => st.g.sh.nextId :: st.flagged
+           | _, _ => st.flagged)
+        | _ => st.flagged
+      let st := { st with flagged := flagged }
       let newRets := g'.sh.rets.drop st.g.sh.rets.length
       let retS := String.join (newRets.map (fun r => " " ++ showRet r))
       let idOk := match opt with
@@ -187,35 +256,39 @@ def step1 (st : St) (op impl : String) : St × StepOut :=
       let c := if point == "send.status" then
           match opt with
           | [w] => (match (parseKV w "id").bind (·.toNat?) with
-                    | some id => { c with starts := (id, c.closed, c.line) :: c.starts }
+                    | some id =>
+                      let oks := (c.rets.filter (fun r => r.kind == "send" && r.res == "ok")).map (·.id)
+                      { c with starts := (id, c.closed, c.line, oks) :: c.starts }
                     | none => c)
           | _ => c
         else c
-      let inflight := (List.range st.g.threads.length).any (fun k =>
+      let inflight := (List.range st.workers).any (fun k =>
         k != i && !(["op.start", "done"].contains (threadAt st.g k)))
       let c := if point == "drain.close" then { c with drainClosed := true, raced := c.raced || inflight } else c
       let c := (parseRets iw).foldl (fun c (k, id, r) =>
-        let (late, sl) := match c.starts.find? (·.1 == id) with
-          | some (_, l, s) => (l, s)
-          | none => (false, 0)
-        let (late, sl) := if k == "send" then (late, sl) else (false, c.line)
-        { c with rets := c.rets ++ [{ kind := k, id := id, res := r, late := late, startLine := sl, retLine := c.line }] }) c
+        let (late, sl, oks) := match c.starts.find? (·.1 == id) with
+          | some (_, l, s, o) => (l, s, o)
+          | none => (false, 0, [])
+        let (late, sl, oks) := if k == "send" then (late, sl, oks) else (false, c.line, [])
+        { c with rets := c.rets ++ [{ kind := k, id := id, res := r, late := late, seenOk := oks, startLine := sl, retLine := c.line }] }) c
       let c := { c with closed := implClosed }
       ({ st with g := g', c := c }, { model := model })
   | ["rx", what] =>
     let alive := st.g.sh.rxOpen
     let g0 := st.g
-    let (g1, reason) :=
-      if !alive then (g0, "-")
+    let (g1, reason, nextH) :=
+      if !alive then (g0, "-", st.nextH)
       else if what == "run" then
-        let g := recvAll g0
-        if g.sh.rxStopped then (exitSeq.foldl _root_.Admission.step g, "Drained") else (g, "-")
+        let (g, nh) := recvAll g0 st.workers st.flagged st.nextH (2 * g0.sh.queue.length + 2 * st.flagged.length + 2)
+        if g.sh.rxStopped then (exitSeq.foldl _root_.Admission.step g, "Drained", nh) else (g, "-", nh)
       else
         let g := _root_.Admission.step g0 .rxStop
-        (exitSeq.foldl _root_.Admission.step g, if what == "kill" then "killed" else "-")
+        (exitSeq.foldl _root_.Admission.step g, if what == "kill" then "killed" else "-", st.nextH)
     let exited := alive && !g1.sh.rxOpen
     let newH := g1.sh.handled.drop g0.sh.handled.length
-    let model := s!"handled={showNats newH} exit={if exited then reason else "-"} st={g1.sh.status}"
+    let selfRets := g1.sh.rets.drop g0.sh.rets.length
+    let selfS := if selfRets.isEmpty then "-" else ",".intercalate (selfRets.map (fun r => s!"{r.id}:{showRes r.res}"))
+    let model := s!"handled={showNats newH} exit={if exited then reason else "-"} st={g1.sh.status} self={selfS}"
     -- implementation side
     let iw := words impl
     let implH := (iw.findSome? (parseKV · "handled")).bind natList? |>.getD []
@@ -224,7 +297,19 @@ def step1 (st : St) (op impl : String) : St × StepOut :=
     let c := { c with handled := c.handled ++ implH,
                       exits := if implExit == "-" then c.exits else c.exits ++ [implExit],
                       otherExit := c.otherExit || (what != "run") }
-    ({ st with g := g1, c := c, exitReason := if exited then reason else st.exitReason }, { model := model })
+    -- the handler's sends to its own actor: complete sends that start and return on this line
+    let implSelf : List (Nat × String) := match iw.findSome? (parseKV · "self") with
+      | some "-" => []
+      | some v => (v.splitOn ",").filterMap (fun (e : String) => match e.splitOn ":" with
+          | [i, r] => (String.toNat? i).map (fun i => (i, r))
+          | _ => none)
+      | none => []
+    let c : Case := implSelf.foldl (fun (c : Case) (x : Nat × String) =>
+      let (id, r) := x
+      let oks := (c.rets.filter (fun r => r.kind == "send" && r.res == "ok")).map (·.id)
+      { c with rets := c.rets ++ [{ kind := "send", id := id, res := r, late := c.closed, seenOk := oks, startLine := c.line, retLine := c.line }],
+               raced := c.raced || c.drainClosed }) c
+    ({ st with g := g1, c := c, exitReason := if exited then reason else st.exitReason, nextH := nextH }, { model := model })
   | "end" :: _ =>
     let g := st.g
     let sup := if g.sh.rxOpen then "Started" else s!"Started,Terminated:{st.exitReason}"
@@ -242,11 +327,24 @@ def step1 (st : St) (op impl : String) : St × StepOut :=
         | _, _, _, _, _ => ["unparsable"]
       | _ => ["unparsable"]
     (st, { model := model, oracle := orc, nontrivial := st.c.raced || st.c.otherExit })
+  | "stress" :: _ :: opts =>
+    let iw := words impl
+    let flag (k : String) : Bool := (opts.findSome? (parseKV · k)) == some "1"
+    let rs := parseSRecs ((iw.findSome? (parseKV · "sends")).getD "-")
+    let handled := ((iw.findSome? (parseKV · "handled")).bind natList?).getD []
+    let drain := match ((iw.findSome? (parseKV · "drain")).getD "-").splitOn ":" with
+      | [a, b] => (do let a ← String.toNat? a; let b ← String.toNat? b; pure (a, b) : Option (Nat × Nat))
+      | _ => none
+    let sup := ((iw.findSome? (parseKV · "sup")).getD "").splitOn ","
+    let exited := (iw.findSome? (parseKV · "exited")) == some "1"
+    let orc := oracleStress (flag "drain") (flag "stop") rs handled drain sup exited
+    -- no model replay: free-running threads are judged by the oracle only
+    (st, { model := impl, oracle := orc, nontrivial := flag "drain" && rs.any (·.res != "ok") && rs.any (·.res == "ok") })
   | _ => (st, { model := "bad-op" })
 
 def step (st : St) (op impl : String) : St × StepOut :=
   let (st', out) := step1 st op impl
-  if st.diverged && !(op.startsWith "case ") then (st', { out with model := impl })
+  if st.diverged && !(op.startsWith "case ") && !(op.startsWith "stress ") then (st', { out with model := impl })
   else if out.model != impl then ({ st' with diverged := true }, out)
   else (st', out)
 
